@@ -8,7 +8,6 @@ package mcp
 
 import (
 	"context"
-	"encoding/json"
 	"net/http"
 	"strings"
 
@@ -56,9 +55,14 @@ func (r *jsonResponder) respond(ctx context.Context, w http.ResponseWriter, req 
 		return nil
 	}
 
-	// Set status code and encode response
+	// Encode first: a result that cannot be encoded is answered with an internal error, not an empty 200.
+	data, err := marshalResponseOrError(resp)
+	if err != nil {
+		http.Error(w, "failed to encode response", http.StatusInternalServerError)
+		return err
+	}
 	w.WriteHeader(http.StatusOK)
-	if err := json.NewEncoder(w).Encode(resp); err != nil {
+	if _, err := w.Write(append(data, '\n')); err != nil {
 		return err
 	}
 
